@@ -320,7 +320,16 @@ pub(crate) fn run(seed: u64, n: u64, out: &mut Out) {
                     }
                     let mut proof = bc.chain.proof(tip, &numbers);
                     if !in_closing && !pending_t.is_empty() && rng.chance(2, 3) {
-                        match rng.below(8) {
+                        match rng.below(10) {
+                            7 | 8 if !blocks.is_empty() => {
+                                // a header nobody mined into the chain (the genuine one with another nonce: same transactions root, so the
+                                // Merkle path still fits) and NO MMR proof at all
+                                what = "txs-proof-forged-header-empty-mmr-proof";
+                                let fb = blocks[0].clone();
+                                let h = fb.header().as_builder().nonce(777u128.pack()).build();
+                                blocks[0] = fb.as_builder().header(h).build();
+                                proof = Default::default();
+                            }
                             0 if !blocks.is_empty() => {
                                 // the right header with a different transaction under the same Merkle proof
                                 what = "txs-proof-forged-transaction";
